@@ -491,6 +491,7 @@ def coq_case_file(case, res):
     checks = []
     labels = []
     body = []
+    lets = []
     body.append('Definition P : list (Z * Z) := %s.' % cpairs(P))
     if not info['vec']:
         flat, _ = decoded['entries_full']
@@ -533,14 +534,16 @@ def coq_case_file(case, res):
             body.append('Definition blocks : list ((list Z * list Z) * list Z) := %s.' % clist(tbl))
             body.append('Definition B (i j : list Z) (c : nat) : Z := nth c (blk_lookup blocks (i, j)) 0.')
             body.append('Definition core_full_impl : list Z := %s.' % clist([ids[v] for v in flatc], cz))
-            body.append('Definition core_full_model : list Z := core_entries 0 %d%%nat %d%%nat B false lv.' % (nc0, nc1))
+            body.append('Definition core_full_model_def : list Z := core_entries 0 %d%%nat %d%%nat B false lv.' % (nc0, nc1))
+            lets.append('let core_full_model := core_full_model_def in')
             checks.append('zl_eqb core_full_model core_full_impl')
             labels.append('core_full')
             have_sym = st.get('core_sym') == 'Ok'
             if have_sym:
                 flats, _ = decoded['core_sym']
                 body.append('Definition core_sym_impl : list Z := %s.' % clist([ids[v] for v in flats], cz))
-                body.append('Definition core_sym_model : list Z := core_entries 0 %d%%nat %d%%nat B true lv.' % (nc0, nc1))
+                body.append('Definition core_sym_model_def : list Z := core_entries 0 %d%%nat %d%%nat B true lv.' % (nc0, nc1))
+                lets.append('let core_sym_model := core_sym_model_def in')
                 checks.append('zl_eqb core_sym_model core_sym_impl')
                 labels.append('core_sym')
             for (sym, fmt, lay) in case['configs']:
@@ -572,7 +575,8 @@ def coq_case_file(case, res):
                 labels.append(key)
     if not checks:
         return None
-    text = HEADER + '\n'.join(body) + '\nEval vm_compute in bad 0 %s.\n' % clist(checks)
+    # the model arrays are bound once (call by value) and shared by all comparisons that use them
+    text = HEADER + '\n'.join(body) + '\nEval vm_compute in %s bad 0 %s.\n' % (' '.join(lets), clist(checks))
     return text, labels
 
 
